@@ -105,7 +105,8 @@ type inst struct {
 	log     *nflog.Log
 	stage   notify.RoutingStage
 	ints    []*integ
-	inMerge atomic.Bool
+	mmtx    sync.Mutex
+	merging map[string]int // payloads currently inside Merge on this instance (re-gossip of those is the channel's job)
 	bcasts  [][]byte
 }
 
@@ -209,7 +210,10 @@ func (w *world) buildInst(n *inst, snap []byte) {
 	}
 	n.log = l
 	l.SetBroadcast(func(b []byte) {
-		if n.inMerge.Load() {
+		n.mmtx.Lock()
+		regossip := n.merging[string(b)] > 0
+		n.mmtx.Unlock()
+		if regossip {
 			return // re-gossip of a merged entry: the scripted channel already owns delivery
 		}
 		n.bcasts = append(n.bcasts, b)
@@ -246,9 +250,16 @@ func (w *world) buildInst(n *inst, snap []byte) {
 }
 
 func (w *world) deliver(src, dst *inst, b []byte) {
-	dst.inMerge.Store(true)
+	dst.mmtx.Lock()
+	if dst.merging == nil {
+		dst.merging = map[string]int{}
+	}
+	dst.merging[string(b)]++
+	dst.mmtx.Unlock()
 	err := dst.log.Merge(b)
-	dst.inMerge.Store(false)
+	dst.mmtx.Lock()
+	dst.merging[string(b)]--
+	dst.mmtx.Unlock()
 	if err == nil {
 		w.record(fmt.Sprintf("deliver %d %d %s", src.idx, dst.idx, w.decode(b)))
 	}
@@ -467,6 +478,7 @@ func runCase(t *testing.T, tr *hx.Trace, id int, r *rand.Rand, script []string) 
 		do := func(line string) {
 			// the op's parameters first, then what happened (in time order), then the resulting entries
 			tr.Linef("%s -> begin", line)
+			tr.Flush()
 			obs := w.exec(line)
 			synctest.Wait()
 			for _, e := range w.drain() {
